@@ -53,10 +53,12 @@ READ_ONLY = ("std::fs::DirEntry::", "std::fs::File::metadata", "std::fs::File::o
 JOURNAL_FILE_MUTATORS = ("std::fs::File::set_len", "std::fs::remove_file", "std::fs::OpenOptions::open", "std::fs::File::create_new")
 
 
-def check_fs_table(ctx, rule, only=None):
-    """one obligation per fs-mutating call site in the crate; `only` restricts to some primitives"""
+def check_fs_table(ctx, rule, only=None, fn_filter=None):
+    """one obligation per fs-mutating call site in the crate; `only` restricts to some primitives, `fn_filter` to some functions"""
     n = 0
     for fid, fn in ctx.F.fns.items():
+        if fn_filter and not fn_filter(fid):
+            continue
         for b, t in fn.calls():
             name = A.cname(t)
             if not (name.startswith("std::fs::") or name.startswith("std::os::unix::fs::")):
@@ -72,6 +74,10 @@ def check_fs_table(ctx, rule, only=None):
                        "%s called by %s: %s" % (base, fid, MUTATORS[base][fid] if ok else "NOT in the who-may-call table %s" % sorted(MUTATORS[base])),
                        fn.loc(b), nontrivial=False)
             elif base in FORBIDDEN:
+                if base in ("std::fs::OpenOptions::truncate", "std::fs::OpenOptions::create") and len(t["args"]) > 1:
+                    v = A.Origins(fn).of_operand(t["args"][1])
+                    if v.k == "const" and v.a == ("bool", False):
+                        continue  # `.create(false)` / `.truncate(false)` change nothing
                 n += 1
                 ctx.ob(rule, fn, "forbidden-%s" % base.rsplit("::", 1)[-1], False, "%s is not used anywhere on the reference tree; new destructive fs call in %s" % (base, fid), fn.loc(b))
             elif not any(base.startswith(r) for r in READ_ONLY):
